@@ -906,6 +906,8 @@ class Sim:
                 self.compare_value(t, i, ms, (vals, form, frame), self.oracle_propagate(i, ems), where)
         if self.hooks and t.state == "running":
             self.hooks.on_item(self, t, item, is_event)
+        if t.call.get("fork_items") and not is_event and not getattr(t, "forked", False) and len(t.samples) >= 2:
+            self.fork_items(t)
         if t.call.get("scribble") and not t.lidx and t.call["call"] != "for":  # `for p in ephem` hands out the stored points themselves, by design
             # the consumer owns what it was given: it changes the form (and, outside the Hill frame, the
             # frame) of the yielded state in place, as TopocentricFrame.visibility itself does
@@ -917,6 +919,47 @@ class Sim:
                 except Exception:  # noqa - e.g. a degenerate state in that form; irrelevant here
                     pass
             ctx.fault("consumer_mutates_item")
+
+    def fork_items(self, t):
+        """The caller goes on from two points an iteration has handed out (each is an orbit with a propagator): an iteration started
+        from the first one, suspended while the second one is propagated, continues as if nothing had happened in between - i.e. as
+        the same iteration made on an independent copy of that point, alone."""
+        ctx = self.ctx
+        a, b = t.samples[-2], t.samples[-1]
+        t.forked = True
+        with self.node:
+            if getattr(a, "propagator", None) is None or getattr(b, "propagator", None) is None or not hasattr(a, "iter"):
+                return
+            sp = self.specs[t.obj]
+            step = self.node.timedelta(seconds=float(sp.get("step_s", 60)))
+            try:
+                early = t.tid % 2 == 0  # the second point is used before the first item is asked for / between two items
+                ref_it = a.copy().iter(stop=step * 3, step=step)
+                next(ref_it)
+                ref = next(ref_it)
+                ref_it.close()
+                it = a.iter(stop=step * 3, step=step)
+                if not early:
+                    next(it)
+                b.propagate(b.date + step)
+                if early:
+                    next(it)
+                got = next(it)
+                it.close()
+            except Exception as e:  # noqa
+                ctx.probe("fork_items_refused:" + type(e).__name__)
+                return
+            same = (got.date == ref.date) and world.vec(got).tobytes() == world.vec(ref).tobytes()
+            detail = f"{world.vec(got)} dated {got.date} instead of {world.vec(ref)} dated {ref.date}"
+        ctx.checks += 1
+        ctx.probe("yielded_points_used_as_new_orbits")
+        ctx.fault("interleaved_use_of_yielded_points")
+        if not same:
+            ctx.violate(
+                "history-independence",
+                self.fp(t, kind="iteration_from_a_yielded_point_disturbed_by_its_sibling"),
+                f"task {t.tid} ({self.kind(t.obj)}.{t.call['call']}): an iteration started from a point this iteration yielded, suspended while the next yielded point was propagated, continues with {detail} (the same iteration made alone on an independent copy)",
+            )
 
     def op_next(self, op):
         t = self.tasks.get(op["task"])
